@@ -92,7 +92,16 @@ def execute(ch, conf):
 
         def randint(a, b):
             if (a, b) != (LO, HI):
-                return a + (7 * len(m.transport.sent)) % (b - a + 1)
+                # not the configured range: no choice point, but never the
+                # same answer twice (a caller that rejects the answer and
+                # draws again must get on)
+                v = a + (7 * len(m.transport.sent)) % (b - a + 1)
+                while v in drawn or v in ec.used_addresses:
+                    v = v + 1 if v < b else a
+                    if len(drawn) > b - a:
+                        raise Exhausted("foreign range exhausted")
+                drawn.append(v)
+                return v
             dom = list(range(a, b + 1))
             # the harness remembers its own answers: an answer given before
             # (or known to the master as used) may be repeated once in a
